@@ -170,10 +170,13 @@ PROPS["C15"] = {
 }
 
 PROPS["C20"] = {
+    "prepare": [prep_corpus],
     "units": [
         {"name": "stub", "pkg": "./internal/bytecode/stub", "run": "^TestVerifC20$", "race": True,
          "timeout": {"quick": 300, "thorough": 1800}, "shards": {"quick": 1, "thorough": 8}},
         {"name": "stub-mmap-failing", "pkg": "./internal/bytecode/stub", "run": "^TestVerifC20Rlimit$",
+         "timeout": {"quick": 300, "thorough": 1800}, "shards": {"quick": 1, "thorough": 4}},
+        {"name": "consumers", "pkg": "./zverif/c20i", "run": "^TestVerifC20Consumers$",
          "timeout": {"quick": 300, "thorough": 1800}, "shards": {"quick": 1, "thorough": 4}},
     ],
     "rule": "in-package test of the stub allocator: (1) rapid-drawn sequences of request sizes 0..110000 against the fallback allocator with the bump "
